@@ -5,7 +5,7 @@ from __future__ import annotations
 import os
 
 from pestverif import fullcase, gprint, refdiff
-from pestverif.runner import Ctx
+from pestverif.runner import Ctx, repo_root
 
 ID = "C13"
 RULE = (
@@ -43,7 +43,7 @@ def eval_case(modes, case):
     mode = case["mode"]
     worker = modes.raw if mode.startswith("raw") else modes.opt
     if "grammar_file" in case:
-        text = open(os.path.join("/repo", case["grammar_file"]), encoding="utf-8").read()
+        text = open(os.path.join(repo_root(), case["grammar_file"]), encoding="utf-8").read()
         info = case["info"]
     else:
         rules = refdiff.case_rules(case)
@@ -133,7 +133,7 @@ def run_shard(ctx: Ctx, spec):
 
         if spec["idx"] < 4:
             gpath = "tests/grammars/reporting.pest"
-            text = open(os.path.join("/repo", gpath), encoding="utf-8").read()
+            text = open(os.path.join(repo_root(), gpath), encoding="utf-8").read()
             info = grammar_facts(text)
             rng = random.Random(ctx.sub_seed("reporting"))
             rules = info["rule_names"]
